@@ -185,7 +185,7 @@ class Context:
             return [safe_run_case(self.run_case, c) for c in cases]
         self.start_pool()
         if chunksize is None:
-            chunksize = max(1, min(64, len(cases) // (self.workers * 8)))
+            chunksize = max(1, min(32, len(cases) // (self.workers * 16)))
         return self.pool.map(_worker_call, cases, chunksize=chunksize)
 
     def out_of_time(self):
@@ -325,6 +325,7 @@ def bfs(ctx, config, depth, tag=None, sample_every=None):
     """Level-synchronous explicit-state search.  A state is the history reaching it; each
     transition is executed by replaying the history on fresh real objects in a worker.
     run_case({'config','history','want_events'}) returns canon/events/failures."""
+    t_start = time.time()
     root_case = {"config": config, "history": [], "want_events": depth > 0}
     root = safe_run_case(ctx.run_case, root_case)
     ctx.absorb(root_case, root, state_key=(tag, config_key(config), root["canon"]),
@@ -359,6 +360,7 @@ def bfs(ctx, config, depth, tag=None, sample_every=None):
         completed = level
     stats["states"] = len(seen)
     stats["depth_completed"] = completed
+    stats["wall_s"] = round(time.time() - t_start, 2)
     return stats
 
 
